@@ -191,7 +191,9 @@ class Backend(metaclass=ABCMeta):
 
         Clears the output buffer on enter and exit.
         """
-        full_path = os.path.join(self.target_folder_path, relative_path)
+        # Normalize before validating: the path that is checked must be the path that is
+        # used, or creating the parents of 'a/../../b' would touch the output root's siblings.
+        full_path = os.path.normpath(os.path.join(self.target_folder_path, relative_path))
         self._validate_output_path(full_path)
         if self._record_output_path(full_path):
             self.clear_output_buffer()
